@@ -4,6 +4,7 @@ import (
 	"fmt"
 	"go/types"
 	"os"
+	"strings"
 
 	"golang.org/x/tools/go/ssa"
 )
@@ -119,6 +120,100 @@ func propC17(a *Analysis, r *Registry) {
 				r.Fail("B-C17 siblings", name+"/n-bound", b.pos(fn), "generating loop has no bound")
 			}
 		})
+		// minor ticks (level < 0): m·Base^n for n over the rounded-out level-0 range and
+		// m = 1..Base-1, each appended only under min <= tick <= max — "inside the domain"
+		// for minor ticks rests on that guard alone, because the range is rounded OUT
+		b.guard("B-C17 minor", name+"/level<0", func() {
+			env := X.EnvFor(fn, "t", "level")
+			env.Let("f0", "t.s.spacingAtLevel(0, true)#0")
+			env.Let("l0", "t.s.spacingAtLevel(0, true)#1")
+			env.Let("lo", "t.s.ebounds()#1")
+			env.Let("hi", "t.s.ebounds()#2")
+			top := X.Under(fn, X.AssumeCond(env.MustParse("level<0"), true), X.AssumeCond(env.MustParse("t.s.Min<0"), false))
+			napp := 0
+			for _, fc := range top.BoundCallees(1) {
+				for _, app := range fc.CallsTo("builtin:append") {
+					if fc.RefutedAt(app.Block(), env.MustParse("level<0")) {
+						continue
+					}
+					napp++
+					where := a.W.InstrPos(app)
+					cn := name + "/level<0"
+					vals := fc.AppendedValues(app)
+					if len(vals) != 1 {
+						r.Undecided("B-C17 minor", cn, where, "anchor: expected one tick appended per step")
+						continue
+					}
+					v := vals[0]
+					env.Set("v", v, nil)
+					if fc.HoldsAt(app.Block(), env.MustParse("lo<=v")) && fc.HoldsAt(app.Block(), env.MustParse("v<=hi")) {
+						r.OK("C-guard in-domain", cn+"/append", where, "the minor tick is appended only under min <= tick <= max of the (sign-normalised) domain")
+						// … and whenever that holds (a major tick equal to an end of the domain is a minor tick too)
+						if pa := v.SingleAtom(); pa != nil && X.phiOf[pa.ID] != nil {
+							vh := X.phiOf[pa.ID].Block()
+							var body *ssa.BasicBlock
+							if lp := fc.Ctx.LoopOf(app.Block()); lp != nil && lp.Header == vh {
+								exits := false
+								for _, sc := range vh.Succs {
+									if lp.Body[sc.Index] {
+										body = sc
+									} else {
+										exits = true
+									}
+								}
+								if !exits {
+									body = vh // bottom-tested loop: the header is the start of the body
+								}
+							}
+							if body != nil {
+								b.EqRF("C-guard in-domain", cn+"/append/exactly", where, fc.ReachCondFrom(body, app.Block()), env.MustParse("lo<=v && v<=hi"), "within an iteration the tick is appended exactly when min <= tick <= max")
+							}
+						}
+					} else {
+						r.Fail("C-guard in-domain", cn+"/append", where, "a minor tick is appended without the guard min <= tick <= max: the rounded-out range reaches outside the domain")
+					}
+					// the value: tick starts at Base^n and advances by Base^n, Base-1 times
+					ti, tn := fc.Recurrence(v)
+					if ti == nil || tn == nil {
+						r.Undecided("B-C17 minor", cn+"/tick-value", where, "anchor: the appended tick is not carried around a loop: "+clip(v.String(), 120))
+						continue
+					}
+					pw := ti.SingleAtom()
+					if pw == nil || pw.Name != "math.Pow" {
+						r.Fail("B-C17 minor", cn+"/tick-value", where, "the first minor tick of a decade is not Base^n: "+clip(ti.String(), 160))
+						continue
+					}
+					n := pw.Args[1]
+					env.Set("n", n, nil)
+					b.EqRF("B-C17 minor", cn+"/tick-init", where, ti, env.MustParse("pow(float(t.s.Base), n)"), "≡ pow(float(t.s.Base), n)")
+					b.EqRF("B-C17 minor", cn+"/tick-step", where, tn, env.MustParse("v+pow(float(t.s.Base), n)"), "≡ tick + pow(float(t.s.Base), n)")
+					// the multiples: the loop that carries the tick runs exactly Base-1 times
+					hdr := X.phiOf[v.SingleAtom().ID].Block()
+					if cnt, msg := b.TripCount(X.phiFC[v.SingleAtom().ID], hdr); msg != "" {
+						r.Fail("B-C17 minor", cn+"/multiples", where, "the loop over the multiples of Base^n is not a counting loop: "+msg)
+					} else {
+						b.EqRF("B-C17 minor", cn+"/multiples", where, cnt, env.MustParse("t.s.Base-1"), "the loop over the multiples of Base^n runs Base-1 times")
+					}
+					// the decades
+					ni, nn := fc.Recurrence(n)
+					if ni == nil || nn == nil {
+						r.Undecided("B-C17 minor", cn+"/n", where, "anchor: the exponent is not carried around a loop")
+						continue
+					}
+					b.EqRF("B-C17 minor", cn+"/n-init", where, ni, env.MustParse("f0"), "≡ spacingAtLevel(0, true) firstN")
+					b.EqRF("B-C17 minor", cn+"/n-step", where, nn, env.MustParse("n+1"), "≡ n+1")
+					nh := X.phiOf[n.SingleAtom().ID].Block()
+					if ifi, ok := nh.Instrs[len(nh.Instrs)-1].(*ssa.If); ok {
+						b.EqRF("B-C17 minor", cn+"/n-bound", a.W.InstrPos(ifi), fc.Val(ifi.Cond), env.MustParse("n<=l0"), "≡ n <= spacingAtLevel(0, true) lastN")
+					} else {
+						r.Fail("B-C17 minor", cn+"/n-bound", where, "the decade loop has no bound")
+					}
+				}
+			}
+			if napp != 1 {
+				r.Fail("B-C17 minor", name+"/level<0", b.pos(fn), "expected exactly one append of a minor tick on the level<0 path, found "+itoa(napp))
+			}
+		})
 		b.guard(rB, name+"/negated-domain", func() {
 			env := X.EnvFor(fn, "t", "level")
 			top := X.Under(fn, X.AssumeCond(env.MustParse("t.s.Min<0"), true))
@@ -170,7 +265,26 @@ func propC17(a *Analysis, r *Registry) {
 					}
 				})
 			}
+			// the exchange delegated to package slices (or the repository's own in-place Reverse)
+			// on the negated slice
+			libRev := 0
+			if ticks != nil {
+				for _, fc := range top.BoundCallees(1) {
+					fc := fc
+					fc.Ctx.Instrs(func(in ssa.Instruction) {
+						c, ok := in.(*ssa.Call)
+						if !ok || c.Call.StaticCallee() == nil || len(c.Call.Args) != 1 {
+							return
+						}
+						if strings.HasPrefix(c.Call.StaticCallee().String(), "slices.Reverse[") && fc.Val(c.Call.Args[0]).Equal(ticks) {
+							libRev++
+						}
+					})
+				}
+			}
 			switch {
+			case mirrorNeg == 0 && mirrorSwap == 0 && negInPlace == 1 && other == 0 && libRev == 1:
+				r.OK(rB, name+"/negated-domain", b.pos(fn), "for negative domains every tick is negated and the slice reversed by slices.Reverse")
 			case mirrorNeg == 2 && mirrorSwap == 0 && negInPlace == 0 && other == 0:
 				r.OK(rB, name+"/negated-domain", b.pos(fn), "for negative domains ticks[i] and ticks[len-1-i] are exchanged and negated")
 			case mirrorNeg == 0 && mirrorSwap == 2 && negInPlace == 1 && other == 0:
